@@ -137,6 +137,9 @@ def coq_make(targets, timeout=3000, clean=False):
         if clean:
             sh(["make", "clean"], cwd=COQ)
         rc, log = sh(["make", "-j16", "-k"] + targets, cwd=COQ, timeout=timeout, limit_mem=True)
+        if rc != 0 and re.search(r"\bKilled\b|Error 137", log) and not re.search(r"^Error:", log, re.M):
+            # a coqc killed by a signal (OOM killer on a loaded machine), nothing rejected by Coq: the rest once more, fewer at a time
+            rc, log = sh(["make", "-j4", "-k"] + targets, cwd=COQ, timeout=timeout, limit_mem=True)
     return rc == 0, log
 
 
